@@ -65,6 +65,7 @@ type PureFunc struct {
 }
 
 type GhostVar struct {
+	Gate bool // a permission flag: false at the entry of every verified function unless its contract requires it
 	Name string
 	Type string // Go type text (map[K]V, bool, int, string) in package scope
 	Pkg  string
@@ -149,7 +150,7 @@ func (sp *Specs) parseFile(repo, fn string) error {
 			case "iface":
 				key = "iface:" + pkg + "." + name
 			case "funcval":
-				key = "funcval:" + pkg + "." + name
+				key = "funcval:" + canonFuncKey(pkg, name)
 			case "extern":
 				key = name
 			}
@@ -200,7 +201,13 @@ func (sp *Specs) parseFile(repo, fn string) error {
 		case "ghost":
 			// ghost name Type
 			n, t := splitWord(rest)
-			sp.ghosts[n] = &GhostVar{Name: n, Type: strings.TrimSpace(t), Pkg: pkg}
+			t = strings.TrimSpace(t)
+			gate := false
+			if strings.HasSuffix(t, " gate") {
+				gate = true
+				t = strings.TrimSpace(strings.TrimSuffix(t, " gate"))
+			}
+			sp.ghosts[n] = &GhostVar{Name: n, Type: t, Pkg: pkg, Gate: gate}
 			cur, lastClause = nil, nil
 		case "guard":
 			// guard IndexedState.IdToFact by IndexedState.RWMutex
